@@ -184,6 +184,63 @@ def reader_resets_queue():
     return False
 
 
+def observe_reader_resets_queue():
+    """OBSERVED (round 7): something is left in the module's queue, a read of a probe file is started and advanced to
+    its first yield; is the left-over gone?  -> True / False, or None when it cannot be observed (the queue is a
+    mapping, the module or the probe cannot be used): then the syntactic reading `reader_resets_queue` is used.
+    The first version only accepted the rebinding written as top-level statements of read_input_syntax itself and
+    reported `false` (a failed obligation of C17) when a harmless rewrite moved them into a helper function."""
+    import importlib
+    import shutil
+    import sys
+    import tempfile
+    import warnings
+
+    tmp = tempfile.mkdtemp()
+    try:
+        if REPO not in sys.path:
+            sys.path.insert(0, REPO)
+        isr = importlib.import_module("montepy.input_parser.input_syntax_reader")
+        from montepy.input_parser.input_file import MCNP_InputFile
+
+        before = isr.reading_queue
+        if isinstance(before, dict) or not hasattr(before, "append"):
+            return None
+        left_over = ("left over by an abandoned read",)
+        path = os.path.join(tmp, "probe.imcnp")
+        with open(path, "w") as fh:
+            fh.write("probe\n1 0 -1\n\n1 so 1\n\nnps 1\n")
+        try:
+            before.append(left_over)
+            with warnings.catch_warnings():
+                warnings.simplefilter("ignore")
+                gen = isr.read_input_syntax(MCNP_InputFile(path))
+                next(gen)
+                now = isr.reading_queue
+                still = any(x is left_over for x in (now.values() if isinstance(now, dict) else now))
+                gen.close()
+            return not still
+        finally:
+            for q in (before, isr.reading_queue):
+                try:
+                    while left_over in q:
+                        q.remove(left_over)
+                except Exception:  # noqa: BLE001
+                    pass
+    except Exception:  # noqa: BLE001
+        return None
+    finally:
+        shutil.rmtree(tmp, ignore_errors=True)
+
+
+def safe(fn, default):
+    """a fact that cannot be read is reported as `default` (the value no theorem accepts): never an exception"""
+    try:
+        return fn()
+    except Exception:  # noqa: BLE001
+        return default
+
+
 def queue_per_path():
     """is the module-level `reading_queue` a mapping (one queue per key) rather than one queue?"""
     tree = parse(os.path.join(PKG, "input_parser", "input_syntax_reader.py"))
@@ -418,21 +475,24 @@ def runtime_shared_writes():
 def generate(write):
     import sly.yacc
 
-    util = parse(os.path.join(PKG, "utilities.py"))
-    facts = template_facts(util)
-    pb = parse(os.path.join(PKG, "input_parser", "parser_base.py"))
-    restart = find_fn(pb, "MCNP_Parser", "restart")
+    # every fact through `safe`: a file or function that is not where it was gives the value no theorem accepts
+    # (a failed obligation of C17 only), never an exception of the translator (which would stop every check)
+    def fn_of(path, cls, name):
+        return safe(lambda: find_fn(parse(path), cls, name), None)
+
+    facts = safe(lambda: template_facts(parse(os.path.join(PKG, "utilities.py"))), [])
+    pb_path = os.path.join(PKG, "input_parser", "parser_base.py")
+    restart = fn_of(pb_path, "MCNP_Parser", "restart")
     restart_clears = restart is not None and calls_method(restart, "self.log", "clear_queue")
-    parse_fn = find_fn(pb, "MCNP_Parser", "parse")
+    parse_fn = fn_of(pb_path, "MCNP_Parser", "parse")
     parse_checks_log = parse_fn is not None and any(
         isinstance(n, ast.Call) and ast.unparse(n) == "len(self.log)" for n in ast.walk(parse_fn)
     )
-    sly_tree = parse(sly.yacc.__file__)
-    sly_parse = find_fn(sly_tree, "Parser", "parse")
+    sly_parse = fn_of(sly.yacc.__file__, "Parser", "parse")
     sly_restarts = sly_parse is not None and calls_method(sly_parse, "self", "restart")
-    obj = find_fn(parse(os.path.join(PKG, "mcnp_object.py")), "MCNP_Object", "__init__")
+    obj = fn_of(os.path.join(PKG, "mcnp_object.py"), "MCNP_Object", "__init__")
     obj_restarts = obj is not None and restart_before_parse(obj, "parser")
-    ri = find_fn(parse(os.path.join(PKG, "input_parser", "mcnp_input.py")), "ReadInput", "__init__")
+    ri = fn_of(os.path.join(PKG, "input_parser", "mcnp_input.py"), "ReadInput", "__init__")
     ri_restarts = ri is not None and restart_before_parse(ri, "self._parser")
     # is the log one object for every parser class?  (class attribute of MCNP_Parser only)
     log_owners = [c for (_, c, a, _) in class_instances() if a == "log"]
@@ -456,10 +516,13 @@ def generate(write):
         % (lstr(f), lstr(c), lstr(p), lstr(t), lstr(h), lstr(tx), k, b(hb), b(hv))
         for f, c, p, t, h, tx, k, hb, hv in ds
     ) + "]\n\n"
-    body += "/-- input_syntax_reader.read_input_syntax rebinds the module-global queue to an empty one before its first yield -/\n"
-    body += f"def readerResetsQueue : Bool := {b(reader_resets_queue())}\n"
+    body += "/-- input_syntax_reader.read_input_syntax: whatever an earlier read left in the module-global queue is gone at its first yield -/\n"
+    observed = observe_reader_resets_queue()
+    resets = observed if observed is not None else safe(reader_resets_queue, False)
+    body += f"-- ({'observed on a probe read' if observed is not None else 'not observable: read from the statements of read_input_syntax'})\n"
+    body += f"def readerResetsQueue : Bool := {b(resets)}\n"
     body += "/-- input_syntax_reader.reading_queue is a mapping (one queue per key, e.g. per path) rather than one queue -/\n"
-    body += f"def queuePerPath : Bool := {b(queue_per_path())}\n"
+    body += f"def queuePerPath : Bool := {b(safe(queue_per_path, True))}\n"
     body += "/-- parser_base.MCNP_Parser.restart calls self.log.clear_queue() -/\n"
     body += f"def restartClearsLog : Bool := {b(restart_clears)}\n"
     body += "/-- sly.yacc.Parser.parse calls self.restart() (so every parse() starts with restart) -/\n"
